@@ -572,6 +572,9 @@ func (x *exec) assignHeaps(w *writeSet, c *Contract, callee *ssa.Function, a spe
 			root = s.X
 		}
 		if t := x.typeOfSpec(c, callee, root); t != nil {
+			if x.p.T.OwnedOf(t) != nil {
+				return // a field of an owned node: no heap is involved
+			}
 			if pt, ok := t.Underlying().(*types.Pointer); ok {
 				w.root(x, pt.Elem())
 				w.arr(x, pt.Elem())
